@@ -467,14 +467,16 @@ class Table(tsdb.Relation):
         self._volatile_index = i + 1
 
     def __iter__(self) -> Iterator[Row]:
-        if self._file is not None:
-            self._file.close()
+        # each iteration reads from its own file handle so that another
+        # iteration over the table (e.g., during a commit) cannot close it
         fh: IO[str] = tsdb.open(self.dir, self.name,
                                 encoding=self.encoding)
         self._file = fh
-
-        for _, row in self._enum_rows(fh):
-            yield row
+        try:
+            for _, row in self._enum_rows(fh):
+                yield row
+        finally:
+            fh.close()
 
     @overload
     def __getitem__(self, index: int) -> Row:
